@@ -3,6 +3,7 @@ import AGH.Spec.Stats
 import AGH.Spec.StatsLocks
 import AGH.Model.StatsFaults
 import AGH.Spec.StatsTop
+import AGH.Spec.StatsLoop
 open Driver AGH.C09
 
 /-! Line-protocol driver for C09 (statistics).  Stateful: a block starts with
@@ -12,6 +13,9 @@ structure DState where
   st : Option (State × Ghost) := none
   /-- between `C09.close` and `C09.open`: only the file and the clock exist -/
   closed : Bool := false
+  /-- loop mode (`C09.loopstart`): the real `periodicFlush` runs; model of the loop,
+  ghost, and since when the clock has shown its present hour -/
+  loop : Option (Loop × Ghost × Nat) := none
 
 def joinWith (sep : String) (l : List String) : String := sep.intercalate l
 
@@ -264,7 +268,7 @@ def stepLocks (impl : List String) : Option String := do
     let n ← n.toNat?
     if facts.length ≠ n then none else
     let F := LockFacts.ofStrings facts
-    let ok := F.ok && factsClean facts
+    let ok := F.okAll && factsClean facts
     let spec := if ok then none else some "C09.atomicity-locks"
     let same := if F == LockFacts.real then "as-modelled" else "changed"
     pure (verdict ok spec ("locks:1:1\t" ++ same ++ "\t" ++ showFacts F ++ "\thypothesis-of-C09_interleavings_serializable=" ++
@@ -306,6 +310,56 @@ def stepTop (ins impl : List String) : Option String := do
     pure (verdict (showTopObs m == impl) spec (joinWith "\t" (cls :: showTopObs m)))
   | _ => none
 
+/-! Loop mode: the harness runs the real `Start`/`periodicFlush` in a
+`testing/synctest` bubble (virtual time), the UnitID generator shows the virtual
+wall-clock hour plus a skew it steps by hand. -/
+
+/-- The wake-ups of `Loop.wait`, with the ghost told about every rotation. -/
+def pollsGhost (L : Loop) (g : Ghost) : Nat → Loop × Ghost
+  | 0 => (L, g)
+  | n + 1 =>
+    let h := hourAt L.next L.skew
+    let g' := if h = L.s.curr.id then g else ghostStep g (.tick h)
+    pollsGhost (L.poll docPeriodMs) g' n
+
+def markRollover (ok : Bool) (line : String) : String :=
+  if ok then line else line.replace "\tspec=ok\t" "\tspec=FAIL:C09.rollover-late\t"
+
+def implUnitId (impl : List String) : Nat := ((impl.drop 3).head?.bind String.toNat?).getD 0
+
+def stepLoop (st : Loop × Ghost × Nat) (op : String) (ins impl : List String) : Option ((Loop × Ghost × Nat) × String) := do
+  let (L, g, since) := st
+  let check := fun (L : Loop) (since : Nat) (line : String) =>
+    markRollover (rolloverOK docPeriodMs L.t since (hourAt L.t L.skew) (implUnitId impl)) line
+  match op, ins with
+  | "C09.step", [gap] =>
+    let gap ← gap.toNat?
+    let L' := L.step gap
+    let g' := ghostStep g (.advance (hourAt L'.t L'.skew))
+    let since' := if gap = 0 then since else L.t
+    let line ← answer "loop.step" L'.s g' false 0 impl
+    pure ((L', g', since'), check L' since' line)
+  | "C09.wait", [ms] =>
+    let ms ← ms.toNat?
+    if ms > 36000000 then none else
+    let t' := L.t + ms
+    let n := if L.next ≤ t' then (t' - L.next) / docPeriodMs + 1 else 0
+    let (Lp, gp) := pollsGhost L g n
+    let L' := { Lp with t := t' }
+    let wall := hourAt t' L'.skew
+    let g' := if wall = gp.clock then gp else ghostStep gp (.advance wall)
+    let since' := if hourAt t' L.skew = hourAt L.t L.skew then since else (t' / msPerHour) * msPerHour
+    let cls := if L'.s.curr.id = L.s.curr.id then "loop.wait" else "loop.wait.roll"
+    let line ← answer cls L'.s g' true 0 impl
+    pure ((L', g', since'), check L' since' line)
+  | "C09.upd", _ =>
+    let ((s', g'), line) ← stepOp (L.s, g) op ins impl
+    pure (({ L with s := s' }, g', since), check L since line)
+  | "C09.read", _ =>
+    let ((s', g'), line) ← stepOp (L.s, g) op ins impl
+    pure (({ L with s := s' }, g', since), check L since line)
+  | _, _ => none
+
 def step (d : DState) (line : String) : DState × String :=
   let fs := splitTab line
   match fs with
@@ -324,9 +378,30 @@ def step (d : DState) (line : String) : DState × String :=
             let s ← new [] clock l en
             let g := Ghost.init clock l en
             pure ((s, g), ← answer "reset" s g true 0 impl)) with
-          | some (st, o) => ({ st := some st, closed := false }, o)
+          | some (st, o) => ({ st := some st, closed := false, loop := none }, o)
           | none => ({ st := none }, "bad-op")
         | _ => ({ st := none }, "bad-op")
+      else if op == "C09.loopstart" then
+        match ins with
+        | [h, off, l] =>
+          match (do
+            let h ← parseU32 h
+            let off ← off.toNat?
+            let l ← l.toNat?
+            let t0 := h * msPerHour + off * 1000
+            let L ← Loop.start docPeriodMs t0 0 l true
+            let g := Ghost.init (hourAt t0 0) l true
+            pure ((L, g, h * msPerHour), ← answer "loop.start" L.s g true 0 impl)) with
+          | some (st, o) => ({ loop := some st }, o)
+          | none => ({}, "bad-op")
+        | _ => ({}, "bad-op")
+      else if d.loop.isSome && (op == "C09.step" || op == "C09.wait" || op == "C09.upd" || op == "C09.read") then
+        match d.loop with
+        | some st =>
+          match stepLoop st op ins impl with
+          | some (st', o) => ({ d with loop := some st' }, o)
+          | none => (d, "bad-op")
+        | none => (d, "bad-op")
       else if op == "C09.conc" then
         (d, (stepConc ins impl).getD "bad-op")
       else if op == "C09.locks" then
